@@ -608,7 +608,9 @@ def rule_max_clique(F, R):
     if not okv: R.violation('max_clique_gen::main / L / vertex set', 'L', 'both endpoints of every record must be added to the vertex collection (record fields 0 and 1); found fields %s' % sorted(cols))
     # the `true` alternative of a constraint block is taken exactly when the complement-edge list is empty
     empt = [e for e in walk(t['body']) if e['k'] == 'If' and e['cond']['k'] != 'Let' and strip(e['cond'])['k'] == 'Call' and (callee_name(strip(e['cond'])) or '').split('::')[-1] == 'is_empty']
-    oke = len(empt) >= 1 and all(P.place(strip(e['cond'])['args'][0]) == T for e in empt)
+    # one emptiness alternative per block that is generated from the list (the plain block and the v_ block): an empty conjunction is not a formula
+    readers_ = [e for e in walk(t['body']) if e['k'] == 'Call' and (callee_decl(e) == 'std::iter::IntoIterator::into_iter' or callee_name(e) == 'core::slice::<impl [T]>::iter') and P.place(e['args'][0]) == T]
+    oke = len(empt) >= 1 and all(P.place(strip(e['cond'])['args'][0]) == T for e in empt) and len(empt) >= min(2, len(readers_))
     R.count('L:emptiness-tests', len(empt)); R.obligation(oke, 'L emptiness')
     if not oke: R.violation('max_clique_gen::main / L / empty constraint block', 'L', 'the `true` alternative of a constraint block must be chosen by the emptiness of the complement-edge list itself')
     # --all replaces the maximality part by `true`
